@@ -68,6 +68,8 @@ class ToyBinary:
         self.calls["ic"] += 1
         T = np.asarray(T, dtype=float)
         g = np.asarray(gExtra, dtype=float)
+        if T.ndim == 2:               # the surrogate trainer passes T as a column (N,1) next to gExtra (N,), like the real class accepts
+            T = T.reshape(-1)
         shape = np.broadcast(T, g).shape
         Tb = np.broadcast_to(T, shape).astype(float).reshape(-1)
         gb = np.broadcast_to(g, shape).astype(float).reshape(-1)
